@@ -1600,23 +1600,8 @@ impl Compiler {
             }
         }
 
-        // Initialize static fields (on the class constructor itself)
-        for field in &static_fields {
-            self.compile_static_field_initializer(dst, field)?;
-        }
-
-        // Define instance auto-accessors (on prototype)
-        for accessor in &instance_auto_accessors {
-            self.compile_auto_accessor(dst, accessor, false)?;
-        }
-
-        // Define static auto-accessors (on class constructor)
-        for accessor in &static_auto_accessors {
-            self.compile_auto_accessor(dst, accessor, true)?;
-        }
-
-        // Before running static blocks, bind the class name so code in static blocks
-        // can reference the class by name (e.g., `Config.value = 42`)
+        // Before running static field initializers and static blocks, bind the class name so
+        // that they can reference the class by name (e.g., `static b = C.a + 1`, `Config.value = 42`)
         // Only create inner binding for explicit class names, not inferred names.
         // For `var C = class {}`, the binding is handled by the var declaration.
         // For `class C {}` or `var x = class C {}`, C needs an inner immutable binding.
@@ -1630,6 +1615,21 @@ impl Compiler {
                 init: dst,
                 mutable: has_decorators, // mutable if decorators might replace the class
             });
+        }
+
+        // Initialize static fields (on the class constructor itself)
+        for field in &static_fields {
+            self.compile_static_field_initializer(dst, field)?;
+        }
+
+        // Define instance auto-accessors (on prototype)
+        for accessor in &instance_auto_accessors {
+            self.compile_auto_accessor(dst, accessor, false)?;
+        }
+
+        // Define static auto-accessors (on class constructor)
+        for accessor in &static_auto_accessors {
+            self.compile_auto_accessor(dst, accessor, true)?;
         }
 
         // Execute static blocks with `this` bound to the class constructor
